@@ -348,9 +348,16 @@ class HttpDown(object):
                 elif a[0] == 'reply':
                     st = 503 if a[1][0] == '4' else 500
                     t['status'] = st
+                    # optional third element: shape of the X-Smtp-Reply value (a next hop may send any)
+                    shape = a[2] if len(a) > 2 else 'std'
+                    hv = {'std': '%s; message="%s.0.0 scripted failure [%s]"' % (a[1], a[1][0], tag),
+                          'nomsg': '%s; command="RCPT"' % a[1],
+                          'bare': '%s;' % a[1],
+                          'unquoted': '%s; message=%s.3.0 try later' % (a[1], a[1][0]),
+                          'extra': '%s; foo="bar"; message="%s.1.1 scripted [%s]"; command="RCPT"' % (a[1], a[1][0], tag),
+                          }[shape]
                     out = ('HTTP/1.1 %d Failed\r\nContent-Length: 0\r\n'
-                           'X-Smtp-Reply: %s; message="%s.0.0 scripted failure [%s]"\r\n\r\n'
-                           % (st, a[1], a[1][0], tag))
+                           'X-Smtp-Reply: %s\r\n\r\n' % (st, hv))
                 elif a[0] == 'status':
                     t['status'] = a[1]
                     out = 'HTTP/1.1 %d Scripted [%s]\r\nContent-Length: 0\r\n\r\n' % (a[1], tag)
